@@ -1011,6 +1011,12 @@ impl Transaction {
                 error!("ERROR: SPV transaction contains invalid hash");
                 return false;
             }
+            // a placeholder stands in for a transaction left out of a lite block and has no slips of
+            // its own: slips on it would reach the ledger without any of the checks below
+            if !self.from.is_empty() || !self.to.is_empty() {
+                error!("ERROR: SPV transaction carries slips");
+                return false;
+            }
 
             return true;
         }
